@@ -178,6 +178,34 @@ def run(prop, tier, seed, t0):
         per_step.append({"step": label, "laws": sorted(laws), "onlyF": onlyf, "profile": profile, "sessions": len(sessions),
                          "tlc_distinct_states": res["distinct"], "tlc_seconds": round(res["seconds"], 1)})
     nviol, nknown = report(prop, fails_by_step, known)
+    big_events = []
+    if prop == "C03":
+        # structured large inputs in child processes: must return (no abort / panic / budget overrun)
+        import checks_splay
+        wd = os.path.join(vlib.OUT, prop, "big")
+        os.makedirs(wd, exist_ok=True)
+        if tier == "quick":
+            scs = [("bool:comb:int", 120000, 1024), ("bool:needles:int", 120000, 1024), ("bool:needles:diff", 100000, 1024), ("bool:comb_subject:diff", 20000, 8192),
+                   ("bool:grid:union", 2500, 8192), ("bool:grid:xor", 2500, 2048), ("bool:stair:int", 40000, 8192), ("bool:stair:union", 20000, 2048)]
+        else:
+            scs = [("bool:comb:int", 500000, 8192), ("bool:comb:diff", 250000, 2048), ("bool:needles:int", 300000, 8192), ("bool:needles:diff", 150000, 2048),
+                   ("bool:comb_subject:diff", 200000, 8192), ("bool:comb:union", 100000, 8192), ("bool:grid:union", 40000, 8192), ("bool:grid:xor", 40000, 2048),
+                   ("bool:grid:int", 90000, 8192), ("bool:stair:int", 1000000, 8192), ("bool:stair:union", 1000000, 2048), ("bool:stair:diff", 1000000, 8192)]
+        path = os.path.join(wd, "stack.ndjson")
+        checks_splay.scenario(scs, path)
+        res2, sfails, _ = checks_splay.validate_stack(path, os.path.join(wd, "trace"), 1 << 30)
+        big_events = vlib.load_sessions(path)
+        os.makedirs(os.path.join(vlib.OUT, "replays"), exist_ok=True)
+        for (kind, i) in sorted(sfails, key=lambda x: x[1]):
+            e = big_events[i - 1]
+            p = os.path.join(vlib.OUT, "replays", "C03-%s-%d-%d.json" % (e["scenario"].replace(":", "_"), e["n"], e["stack_kb"]))
+            json.dump(e, open(p, "w"))
+            log("VIOLATION property=C03 replay=%s" % p)
+            log("  %s: scenario %s n=%d stack=%dKiB exit=%s popped=%d edges=%d" % (kind, e["scenario"], e["n"], e["stack_kb"], e["exit"], e["popped"], e["size"]))
+            nviol += 1
+        tot_gen += res2["generated"]
+        tot_dist += res2["distinct"]
+        log("[C03] large scenarios: %d child processes (up to %d input edges), %d failures" % (len(big_events), max([e["size"] for e in big_events] + [0]), len(sfails)))
     calls, distinct, nontrivial = vlib.session_stats(all_sessions)
     fams = {}
     for s in all_sessions:
@@ -188,7 +216,7 @@ def run(prop, tier, seed, t0):
         "samples": samples, "evaluations": calls, "distinct_nontrivial": nontrivial, "distinct_inputs": distinct,
         "rule": "a case is one real library call (operands, operation, trait pairing, float type) inside a recorded session; distinct = distinct canonical hash of operands+call shape; non-trivial = the sweep ran and processed more events than twice the number of input edges, i.e. at least one edge was split at an intersection, touch or overlap",
         "sessions_by_family": fams, "steps": per_step, "known_findings_hit": nknown,
-        "exhaustive": False,
+        "exhaustive": False, "large_scenarios": big_events,
     }
     vlib.write_evidence(prop, tier, seed, "model_checking", cov, time.time() - t0, nviol, ASSUME)
     log("[%s] %s: %d calls in %d sessions validated by TLC, %d violations, %d known findings, %.0fs" % (
